@@ -78,16 +78,16 @@ def eval (o : Obj3) (lang : Nat) : Src → Bytes
     correspondence check feeds with the implementation's own `Score()` / `Severity()` results, so
     that C17 is compared on "each score field renders *that object's* score" and not on the value
     of the score, which is C01–C03's business) -/
-def evalWith (sc : Level → Nat) (sv : Level → Int) (o : Obj3) (lang : Nat) : Src → Bytes
-  | .score l => fmtScore (sc l)
+def evalWith (sc : Level → Bytes) (sv : Level → Int) (o : Obj3) (lang : Nat) : Src → Bytes
+  | .score l => sc l
   | .sevValue l => (Names.call "SeverityValueOf" (sv l) lang).getD []
   | src => eval o lang src
 
 theorem eval_eq_evalWith (o : Obj3) (lang : Nat) (src : Src) :
-    eval o lang src = evalWith (fun l => score l o) (fun l => severity l o) o lang src := by
+    eval o lang src = evalWith (fun l => fmtScore (score l o)) (fun l => severity l o) o lang src := by
   cases src <;> rfl
 
-def mkReportWith (sc : Level → Nat) (sv : Level → Int) (L : Level) (o : Obj3) (lang : Nat) : List (String × Bytes) :=
+def mkReportWith (sc : Level → Bytes) (sv : Level → Int) (L : Level) (o : Obj3) (lang : Nat) : List (String × Bytes) :=
   (schema L).map fun p => (p.1, evalWith sc sv o lang p.2)
 
 /-- `NewBase` / `NewTemporal` / `NewEnvironmental`: every exported string field by path -/
